@@ -1,10 +1,14 @@
 import GridVerif.Props.C01.NewtonCotes
 import GridVerif.Props.C01.Fejer
+import GridVerif.Props.C01.Fejer2
 import GridVerif.Props.C01.ClenshawCurtis
 import GridVerif.Props.C01.Gauss
+import GridVerif.Props.C01.GaussCheb2
 import GridVerif.Props.C01.Subst
 import GridVerif.Props.C01.Closed
+import GridVerif.Props.C01.Strip
 import GridVerif.Props.C01.Shape
+import GridVerif.Props.C01.StripShape
 
 #print axioms GridVerif.C01.trapezoid_exact
 #print axioms GridVerif.C01.midpoint_exact
@@ -14,6 +18,16 @@ import GridVerif.Props.C01.Shape
 #print axioms GridVerif.C01.fejer1_exact
 #print axioms GridVerif.C01.fejer2_weights_two
 #print axioms GridVerif.C01.fejer2_fails_at_2
+#print axioms GridVerif.C01.fejer2_series_U
+#print axioms GridVerif.C01.fejer2_corrected_exact_U
+#print axioms GridVerif.C01.fejer2_corrected_exact
+#print axioms GridVerif.C01.fejer2_corrected_make
+#print axioms GridVerif.C01.fejer2_gen_facts
+#print axioms GridVerif.C01.fejer2_code_weights_defect
+#print axioms GridVerif.C01.fejer2_code_U
+#print axioms GridVerif.C01.fejer2_code_defect
+#print axioms GridVerif.C01.fejer2_code_not_exact
+#print axioms GridVerif.C01.fejer2_code_exact_below
 #print axioms GridVerif.C01.cc_gen_facts
 #print axioms GridVerif.C01.clenshawcurtis_exact_T
 #print axioms GridVerif.C01.clenshawcurtis_exact
@@ -23,6 +37,9 @@ import GridVerif.Props.C01.Shape
 #print axioms GridVerif.C01.gausscheb2_exact
 #print axioms GridVerif.C01.gausslaguerre_exact
 #print axioms GridVerif.C01.gausscheb1_exact
+#print axioms GridVerif.C01.integral_sqrt_mul_U
+#print axioms GridVerif.C01.chebyu_gaussExact
+#print axioms GridVerif.C01.gausscheb2_closed_exact
 #print axioms GridVerif.C01.tanhsinh_weight_is_step_times_deriv
 #print axioms GridVerif.C01.tanhsinh_strictMono
 #print axioms GridVerif.C01.tanhsinh_shape
@@ -52,6 +69,12 @@ import GridVerif.Props.C01.Shape
 #print axioms GridVerif.C01.derg2_pos
 #print axioms GridVerif.C01.derg3_pos
 #print axioms GridVerif.C01.dergstrip_is_deriv_gstrip
+#print axioms GridVerif.C01.gstrip_cn_pos
+#print axioms GridVerif.C01.gstrip_endpoints
+#print axioms GridVerif.C01.gstrip_strictMonoOn
+#print axioms GridVerif.C01.dergstrip_end_is_limit
+#print axioms GridVerif.C01.dergstrip_end_is_limit_left
+#print axioms GridVerif.C01.gstrip_shape
 #print axioms GridVerif.C01.trapezoidal_shape
 #print axioms GridVerif.C01.simpson_shape
 #print axioms GridVerif.C01.midpoint_shape
@@ -66,3 +89,5 @@ import GridVerif.Props.C01.Shape
 #print axioms GridVerif.C01.trefethen_poly_shape
 #print axioms GridVerif.C01.trefethen_poly_reject
 #print axioms GridVerif.C01.trefethencc_shape
+#print axioms GridVerif.C01.trefethen_strip_shape
+#print axioms GridVerif.C01.trefethenstripcc_shape
